@@ -90,11 +90,24 @@ mod verif_kani_tokrollback {
         }
     }
 
+    /// a Vec<u8> of symbolic length `total` with a CONCRETE capacity (symbolic allocation sizes blow CBMC up)
+    fn bytes_of_len<const NTOK: usize>(total: usize) -> Vec<u8> {
+        let mut v = Vec::with_capacity(3 * NTOK + 1);
+        let mut i = 0;
+        while i < 3 * NTOK {
+            if i < total {
+                v.push(0u8);
+            }
+            i += 1;
+        }
+        v
+    }
+
     /// Build a state that satisfies the TokHist invariant for `ntok` committed tokens (ntok concrete: Vec capacities
     /// must be concrete under CBMC), everything else symbolic; run the real rollback(n); check the accounting.
     fn run<const NTOK: usize>() {
         let lens: [usize; VOCAB] = kani::any();
-        kani::assume(lens[0] >= 1 && lens[0] <= 9 && lens[1] >= 1 && lens[1] <= 9 && lens[2] >= 1 && lens[2] <= 9 && lens[3] >= 1 && lens[3] <= 9);
+        kani::assume(lens[0] >= 1 && lens[0] <= 3 && lens[1] >= 1 && lens[1] <= 3 && lens[2] >= 1 && lens[2] <= 3 && lens[3] >= 1 && lens[3] <= 3);
         let mut toks = Vec::with_capacity(NTOK);
         let mut contrib = [0usize; NTOK];
         let mut zero_idx = Vec::with_capacity(NTOK);
@@ -127,7 +140,7 @@ mod verif_kani_tokrollback {
             max_tokens_total: kani::any(),
             llm_tokens: toks,
             eos_without_bytes: zero_idx,
-            llm_bytes: vec![0u8; total],
+            llm_bytes: bytes_of_len::<NTOK>(total),
             is_fresh: kani::any(),
             had_rollback: false,
         };
@@ -182,29 +195,29 @@ mod verif_kani_tokrollback {
     }
 
     #[kani::proof]
-    #[kani::unwind(6)]
+    #[kani::unwind(11)]
     fn tok_rollback_n0() {
         run::<0>();
     }
     #[kani::proof]
-    #[kani::unwind(6)]
+    #[kani::unwind(11)]
     fn tok_rollback_n1() {
         run::<1>();
     }
     #[kani::proof]
-    #[kani::unwind(6)]
+    #[kani::unwind(11)]
     fn tok_rollback_n2() {
         run::<2>();
     }
     #[kani::proof]
-    #[kani::unwind(6)]
+    #[kani::unwind(11)]
     fn tok_rollback_n3() {
         run::<3>();
     }
 
     // vacuity guard: must FAIL (claims a rollback never changes the token count)
     #[kani::proof]
-    #[kani::unwind(6)]
+    #[kani::unwind(11)]
     fn mustfail_tok_rollback_keeps_tokens() {
         let mut tp = ShimTP {
             trie: ShimTrie { lens: [1; VOCAB] },
